@@ -101,6 +101,12 @@ Definition aut_complete (g : grammar) (a : automaton) : Prop :=
                        0 <= q /\ exists st, nth_error (a_states a) (Z.to_nat q) = Some st /\
                                             In it (closure g (s_kernel st) (s_seed st)).
 
+(* every symbol after a dot has a transition: the collection is complete *)
+Definition aut_total (g : grammar) (a : automaton) : Prop :=
+  forall q st it s, 0 <= q -> nth_error (a_states a) (Z.to_nat q) = Some st ->
+                    In it (closure g (s_kernel st) (s_seed st)) -> sym_after g it = Some s ->
+                    exists q', trans_target a q s = Some q'.
+
 (* measure that la_fix compares *)
 Definition la_stable (g : grammar) (a : automaton) (nl : list Z) (ft : first_table) (t : la_table) : bool :=
   let t' := la_round g a nl ft t in
